@@ -37,4 +37,5 @@ for d in sorted(glob.glob(os.path.join(VERIF, "seeded", "*"))):
         print(sid, pid, "+%d" % new)
     finally:
         sh(["git", "-C", "/repo", "checkout", "--", "."])
+        sh(["git", "-C", "/repo", "clean", "-fdq", "cvss"])       # files a patch created
 sh(["/venv/bin/python", os.path.join(VERIF, "tools", "gen_tables.py")])
